@@ -98,8 +98,10 @@ def observe_model(m, case, ca, np, CASADI_ATTRIBUTES):
 
     try:
         f = m.variable_metadata_function
-    except Exception as e:  # noqa - reported with the site, the parent classifies it
-        raise RuntimeError("variable_metadata_function: " + str(e))
+    except Exception as e:  # noqa - the Variable-level observation is still reported; the parent classifies the failure
+        msg = "variable_metadata_function: " + str(e)
+        return {"params": params, "cats": cats, "rebuilt": None, "attr_order": list(CASADI_ATTRIBUTES),
+                "meta_exc": msg if len(msg) <= 500 else msg[:250] + " ... " + msg[-250:]}
     rebuilt = None
     try:
         if f.class_name() == "MXFunction":
